@@ -501,6 +501,14 @@ impl<B> RequestInspector<'_, B> {
     }
 }
 
+#[cfg(feature = "verif-hooks")]
+impl<B> RequestBuilder<B> {
+    #[doc(hidden)]
+    pub fn verif_snapshot(&self) -> crate::verif::Snapshot {
+        crate::verif::snapshot(&self.base_settings)
+    }
+}
+
 #[test]
 #[cfg(feature = "tls-native")]
 fn test_accept_invalid_certs_disabled_by_default() {
